@@ -549,3 +549,39 @@ func Hex(b []byte) string {
 	}
 	return hex.EncodeToString(b)
 }
+
+// FailAsync reports a violation found outside a rapid property / sub-test (e.g. a background
+// real-clock scenario): it is announced directly.
+func FailAsync(v Violation) {
+	if text, ok := IsKnown(v.Property, v.Key); ok {
+		stats.mu.Lock()
+		stats.excluded[v.Key]++
+		stats.knownSeen[v.Key] = text
+		stats.mu.Unlock()
+		return
+	}
+	asyncMu.Lock()
+	asyncCount++
+	asyncMu.Unlock()
+	if os.Getenv("VERIF_REPLAY_FILE") != "" {
+		return
+	}
+	announce(&v, "async")
+	asyncFailed = true
+}
+
+var (
+	asyncMu     sync.Mutex
+	asyncCount  int
+	asyncFailed bool
+)
+
+// AsyncViolations returns how many asynchronous violations were reported so far.
+func AsyncViolations() int {
+	asyncMu.Lock()
+	defer asyncMu.Unlock()
+	return asyncCount
+}
+
+// AsyncFailed tells TestMain to exit non-zero.
+func AsyncFailed() bool { return asyncFailed }
